@@ -43,6 +43,8 @@ def container_ops(ctx, rule, body, adt, field, allowed, must_have, tkey, modelle
             if cl is None:
                 if n is name and short.split("::")[-1] in ("deref", "deref_mut", "iter", "len", "is_empty", "borrow", "borrow_mut", "as_mut", "as_ref", "next", "enumerate", "into_iter"):
                     cl = "lookup"
+                elif mir.strip_generics(n).startswith(("tracing_core::field::", "tracing::field::", "core::fmt::")):
+                    cl = "lookup"       # the list is only formatted for a log line
                 elif modelled:
                     continue
                 else:
@@ -246,3 +248,9 @@ def _dispatch_order(ctx):
     n4 = core.adopt(ctx, c02, lambda o: o["rule"] == "C02.a" and any(k in o["key"] for k in ("postpone-only-busy-nonroot", "dispositions=", "single-disposition", "abort-only")), "C12.g")
     n4 += core.adopt(ctx, c08, lambda o: o["rule"] == "C08.e" and "polls-before-postponing" in o["key"], "C12.g")
     ctx.floor("C12.g", n4, 2, "shared disposition obligations (C02.a, C08.e)")
+    # every delivery gets a pending entry of its own: `prepare` appends exactly one entry per command - an "idempotent" prepare
+    # that skips an entry equal to a pending one leaves the second of two identical deliveries without data (shared with
+    # C11.prepared)
+    import c11 as _c11
+    n5 = core.adopt(ctx, _c11, lambda o: o["rule"] == "C11.prepared" and "appends-exactly-one-entry" in o["key"] and "<=" not in o["key"], "C12.h")
+    ctx.floor("C12.h", n5, 4, "shared one-entry-per-prepare obligations (C11.prepared)")
